@@ -406,6 +406,26 @@ Proof.
   - destruct args as [|a [|b [|c r]]]; try apply ole_refl. apply known_body2_mono.
 Qed.
 
+Lemma mapM_mono : forall A (f f' : A -> outcome val) l, (forall x, ole (f x) (f' x)) ->
+  mapM f l = OutOfFuel \/ mapM f l = mapM f' l.
+Proof.
+  intros A f f' l H. induction l as [|a l IH]; cbn; [right; reflexivity|].
+  destruct (H a) as [E|E]; rewrite E; [left; reflexivity|].
+  destruct (f' a); cbn; try (right; reflexivity).
+  destruct IH as [E2|E2]; rewrite E2; [left | right]; reflexivity.
+Qed.
+
+Lemma zip_run1_mono : forall fs l,
+  zip_run1 R fs l = OutOfFuel \/ zip_run1 R fs l = zip_run1 R' fs l.
+Proof.
+  destruct LE as (L0 & L1 & L2).
+  induction fs as [|f fs IH]; intros l; cbn; [right; reflexivity|].
+  destruct l as [|a l]; [right; reflexivity|].
+  destruct (L1 f a) as [E|E]; rewrite E; [left; reflexivity|].
+  destruct (r_run1 R' f a); cbn; try (right; reflexivity).
+  destruct (IH l) as [E2|E2]; rewrite E2; [left | right]; reflexivity.
+Qed.
+
 Lemma func_run_mono : forall f args, ole (func_run R f args) (func_run R' f args).
 Proof.
   destruct LE as (L0 & L1 & L2).
@@ -424,6 +444,17 @@ Proof.
       * destruct rest; [apply L0 | apply ole_refl].
       * destruct rest2; [apply L0 | apply ole_refl].
   - apply ole_bind; [right; reflexivity | intros; apply call_mono].
+  - (* OnComposition *) apply ole_bind; [apply mapM_mono; intros; apply L1 | intros; apply L0].
+  - (* Parallel *) destruct args as [|x [|y r]]; try apply ole_refl.
+    + destruct x; try apply ole_refl;
+        (destruct (to_iter _); try apply ole_refl;
+         destruct (Nat.eqb _ _); try apply ole_refl;
+         apply ole_bind; [apply zip_run1_mono | intros; apply ole_refl]).
+    + apply ole_bind; [apply zip_run1_mono | intros; apply ole_refl].
+  - (* Fanout *) apply ole_bind; [apply mapM_mono; intros; apply L0 | intros; apply ole_refl].
+  - (* OnFanoutConst *) apply ole_bind; [apply mapM_mono; intros [d|l|g]; try apply ole_refl; apply L0 | intros; apply L0].
+  - (* CallSectionHole *) destruct args as [|c it]; try apply ole_refl.
+    apply ole_bind; [right; reflexivity | intros; apply call_mono].
 Qed.
 
 Lemma func_run1_mono : forall f a, ole (func_run1 R f a) (func_run1 R' f a).
@@ -642,6 +673,142 @@ Proof.
   destruct (eval n op) as [[d|l|ff]| | |]; cbn [bind]; try (split; intros H; inversion H; fail).
   destruct (eval n rhs) as [b| | |]; cbn [bind]; try (split; intros H; inversion H; fail).
   destruct (run2 n ff x b); split; intros H; inversion H; subst; reflexivity.
+Qed.
+
+(* ------------------------------------------------------------ call section with a hole callee *)
+Lemma eval_call_hole : forall n args,
+  eval n (ECallHole args) =
+  (acc <- sse n args (inl []) ;;
+   match acc with
+   | inl v => Ok (VFunc (FCallSectionHole (map (@SVal B C D) v)))
+   | inr slots => Ok (VFunc (FCallSectionHole slots))
+   end).
+Proof. reflexivity. Qed.
+
+(* _(a, _, c)(f, b) = f(a, b, c): any layout, with or without further holes *)
+Lemma hole_callee : forall n f (l : list (val * bool)),
+  eval (S n) (form_hole_callee f l) = run n f (map fst l).
+Proof.
+  intros n f l. unfold form_hole_callee, Fv. rewrite eval_call, eval_call_hole.
+  destruct (sse_mask (S n) l (inl [])) as (acc' & E & S1 & _).
+  rewrite E. cbn [bind]. cbn in S1.
+  assert (Hf : (match acc' with
+                | inl v => Ok (VFunc (FCallSectionHole (map (@SVal B C D) v)))
+                | inr slots => Ok (VFunc (FCallSectionHole slots))
+                end) = Ok (VFunc (FCallSectionHole (map (@mask_slot B C D) l)))).
+  { destruct acc' as [v|slots]; cbn in S1; rewrite S1; reflexivity. }
+  rewrite Hf. cbn [bind].
+  rewrite sse_cons_norm, eval_val. cbn [bind sse_push app]. rewrite sse_norm.
+  cbn [bind app Apply.call_or_part_apply]. rewrite run_S. cbn [Apply.func_run].
+  pose proof (apply_section_mask [] l) as A. cbn in A. rewrite A. reflexivity.
+Qed.
+
+(* ------------------------------------------------------------ function-building combinators *)
+Lemma curried_eval : forall n f a b g,
+  run (S n) f [b] = Ok (VFunc g) -> eval (S n) (form_curried f a b) = run (S n) g [a].
+Proof.
+  intros n f a b g H. unfold form_curried, Fv, V. rewrite eval_call, eval_call, eval_val. cbn [bind].
+  rewrite sse_cons_norm, eval_val. cbn [bind]. rewrite sse_nil.
+  cbn [bind sse_push app Apply.call_or_part_apply]. rewrite H. cbn [bind].
+  rewrite sse_cons_norm, eval_val. cbn [bind]. rewrite sse_nil.
+  cbn [bind sse_push app Apply.call_or_part_apply]. reflexivity.
+Qed.
+
+Lemma on_composition_2 : forall n f g a b,
+  run (S n) (FOnComposition f g) [a; b] =
+  bind (run n g [a]) (fun x => bind (run n g [b]) (fun y => run n f [x; y])).
+Proof.
+  intros. rewrite run_S. cbn [Apply.func_run mapM].
+  change (r_run1 (runners_at n) g a) with (run1 n g a).
+  change (r_run1 (runners_at n) g b) with (run1 n g b).
+  rewrite !run1_is_run.
+  destruct (run n g [a]); cbn [bind]; try reflexivity.
+  destruct (run n g [b]); reflexivity.
+Qed.
+
+Lemma fanout_2 : forall n g h args,
+  run (S n) (FFanout [g; h]) args =
+  bind (run n g args) (fun x => bind (run n h args) (fun y => Ok (VList [x; y]))).
+Proof.
+  intros. rewrite run_S. cbn [Apply.func_run mapM].
+  change (r_run (runners_at n) g args) with (run n g args).
+  change (r_run (runners_at n) h args) with (run n h args).
+  destruct (run n g args); cbn [bind]; try reflexivity.
+  destruct (run n h args); reflexivity.
+Qed.
+
+Lemma parallel_2 : forall n g h a b,
+  run (S n) (FParallel [g; h]) [a; b] =
+  bind (run n g [a]) (fun x => bind (run n h [b]) (fun y => Ok (VList [x; y]))).
+Proof.
+  intros. rewrite run_S. cbn [Apply.func_run Apply.zip_run1].
+  change (r_run1 (runners_at n) g a) with (run1 n g a).
+  change (r_run1 (runners_at n) h b) with (run1 n h b).
+  rewrite !run1_is_run.
+  destruct (run n g [a]); cbn [bind]; try reflexivity.
+  destruct (run n h [b]); reflexivity.
+Qed.
+
+Lemma on_fanout_const_2 : forall n f g c args, is_func c = false ->
+  run (S n) (FOnFanoutConst f [VFunc g; c]) args = bind (run n g args) (fun x => run n f [x; c]).
+Proof.
+  intros n f g c args H. rewrite run_S. cbn [Apply.func_run mapM].
+  change (r_run (runners_at n) g args) with (run n g args).
+  destruct c; try discriminate; destruct (run n g args); reflexivity.
+Qed.
+
+Lemma combinators_build : forall n f g h (c : val),
+  run (S n) (FCombinator CParallel) [VFunc g; VFunc h] = Ok (VFunc (FParallel [g; h])) /\
+  run (S n) (FCombinator CFanout) [VFunc g; VFunc h] = Ok (VFunc (FFanout [g; h])) /\
+  run (S n) (FKnown KOn) [VFunc f; VFunc g] = Ok (VFunc (FOnComposition f g)) /\
+  run (S n) (FCombinator CLift) [VFunc g; c; VFunc f] = Ok (VFunc (FOnFanoutConst f [VFunc g; c])) /\
+  (is_func c = false -> run (S n) (FCombinator CParallel) [VFunc g; c] = Err EType) /\
+  (is_func c = false -> run (S n) (FCombinator CLift) [VFunc g; c] = Err EType).
+Proof.
+  intros. repeat split; try reflexivity; intros H; destruct c; try discriminate; reflexivity.
+Qed.
+
+(* lift(b) is PartialAppLast(lift, b): a right section (so last_section applies) *)
+Lemma lift_is_section : forall n a b,
+  run (S n) (FCombinator CLift) [b] = Ok (VFunc (FPartialAppLast (FCombinator CLift) b)) /\
+  eval (S n) (form_curried (FCombinator CLift) a b) = run n (FCombinator CLift) [a; b].
+Proof. intros. split; [reflexivity | apply last_section; reflexivity]. Qed.
+
+(* *** and &&& : the two-argument call succeeds, the one-argument call is a function, and the
+   curried call is something else - in the model, for all functions g h and all builtin meanings *)
+Lemma variadic_combinators_not_sections : forall n m g h,
+  (run (S m) (FCombinator CParallel) [VFunc h; VFunc g] = Ok (VFunc (FParallel [h; g])) /\
+   run (S n) (FCombinator CParallel) [VFunc g] = Ok (VFunc (FParallel [g])) /\
+   eval (S (S n)) (form_curried (FCombinator CParallel) (VFunc h) (VFunc g)) = Err EType) /\
+  (run (S m) (FCombinator CFanout) [VFunc h; VFunc g] = Ok (VFunc (FFanout [h; g])) /\
+   run (S n) (FCombinator CFanout) [VFunc g] = Ok (VFunc (FFanout [g])) /\
+   forall r, eval (S (S n)) (form_curried (FCombinator CFanout) (VFunc h) (VFunc g)) <> Ok (VFunc r)).
+Proof.
+  intros n m g h. split; (split; [reflexivity|]); (split; [reflexivity|]).
+  - rewrite (@curried_eval (S n) _ _ _ (FParallel [g])); reflexivity.
+  - intros r. rewrite (@curried_eval (S n) _ _ _ (FFanout [g])); [|reflexivity].
+    rewrite run_S. cbn [Apply.func_run mapM].
+    destruct (r_run (runners_at (S n)) g [VFunc h]); cbn; discriminate.
+Qed.
+
+(* equals(args) is OnFanoutConst(==, args) (LiftedEquals::run).  With data a b, the function equals(b)
+   applied to a is the ONE-argument call of == on b - whatever that builtin makes of it (in /repo: the
+   section ==(b)) - not equals(a, b) *)
+Lemma equals_curried : forall n (beq : B) a b, is_func b = false ->
+  run (S (S n)) (FOnFanoutConst (FBuiltin beq) [b]) [a] = brun beq [b].
+Proof. intros n beq a b H. destruct b; try discriminate; reflexivity. Qed.
+
+Lemma function_combinators : forall n f g h a b c (args : list val),
+  run (S n) (FOnComposition f g) [a; b] =
+    bind (run n g [a]) (fun x => bind (run n g [b]) (fun y => run n f [x; y])) /\
+  run (S n) (FFanout [g; h]) args =
+    bind (run n g args) (fun x => bind (run n h args) (fun y => Ok (VList [x; y]))) /\
+  run (S n) (FParallel [g; h]) [a; b] =
+    bind (run n g [a]) (fun x => bind (run n h [b]) (fun y => Ok (VList [x; y]))) /\
+  (is_func c = false ->
+   run (S n) (FOnFanoutConst f [VFunc g; c]) args = bind (run n g args) (fun x => run n f [x; c])).
+Proof.
+  intros. split; [apply on_composition_2|]. split; [apply fanout_2|]. split; [apply parallel_2 | apply on_fanout_const_2].
 Qed.
 
 (* ------------------------------------------------------------ packaged statements for Props/C04.v *)
